@@ -9,13 +9,14 @@ import (
 	"database/sql"
 	"encoding/json"
 	"fmt"
+	"os"
 	"time"
 
 	"verif/simrt"
 )
 
 type HOp struct {
-	Kind string   `json:"kind"` // open | close | query | maxopen | maxidle | idletime | sleep
+	Kind string   `json:"kind"` // open | close | query | maxopen | maxidle | idletime | sleep | hide | unhide (move the file away / back)
 	H    int      `json:"h"`
 	File int      `json:"file,omitempty"`
 	Opts string   `json:"opts,omitempty"`
@@ -125,7 +126,31 @@ func genC17(c *Ctx) any {
 		var ops []HOp
 		for i, n := 0, r.Range(1, 6); i < n; i++ {
 			oh = openHandles()
-			switch k := r.Intn(12); {
+			switch k := r.Intn(13); {
+			case k == 12:
+				// a file that is missing at first use: the open fails, later the file is there
+				f := r.Intn(nf)
+				busy := false
+				for _, h := range hs {
+					if h.open && h.file == f {
+						busy = true
+					}
+				}
+				if busy {
+					continue
+				}
+				opts := handleOpts[r.Intn(len(handleOpts))]
+				hs = append(hs, hstate{open: true, file: f})
+				h := len(hs) - 1
+				ops = append(ops, HOp{Kind: "hide", File: f}, HOp{Kind: "open", H: h, File: f, Opts: opts}, query(h))
+				if r.Chance(1, 2) {
+					ops = append(ops, query(h))
+				}
+				ops = append(ops, HOp{Kind: "unhide", File: f}, query(h))
+				if r.Chance(1, 2) {
+					hs[h].open = false
+					ops = append(ops, HOp{Kind: "close", H: h})
+				}
 			case len(oh) == 0 || k < 3:
 				f := r.Intn(nf)
 				opts := handleOpts[r.Intn(len(handleOpts))]
@@ -174,14 +199,34 @@ func runC17(c *Ctx, body json.RawMessage) *Verdict {
 	reopenAfterLastClose, concFirstUse := false, false
 	everClosedAll := map[int]bool{}
 	used := map[int]bool{}
-	for _, ph := range cs.Phases {
+	hidden := map[int]bool{}
+	mustFail := map[[3]int]bool{} // (phase, task, op) of queries issued while the file is missing
+	for pi, ph := range cs.Phases {
 		if len(ph.Tasks) == 0 {
 			return Invalid("empty phase")
 		}
-		for _, ops := range ph.Tasks {
-			for _, op := range ops {
+		for ti, ops := range ph.Tasks {
+			for oi, op := range ops {
 				if op.Kind == "sleep" {
 					continue
+				}
+				if op.Kind == "hide" || op.Kind == "unhide" {
+					if len(ph.Tasks) > 1 || op.File < 0 || op.File >= len(cs.Datas) || hidden[op.File] == (op.Kind == "hide") {
+						return Invalid("bad hide/unhide")
+					}
+					for _, o := range handles {
+						if o.open && o.file == op.File && op.Kind == "hide" {
+							return Invalid("hide while a handle is open")
+						}
+					}
+					hidden[op.File] = op.Kind == "hide"
+					if op.Kind == "hide" {
+						v.Count("fault_file_missing_at_first_use", 1)
+					}
+					continue
+				}
+				if op.Kind == "query" && handles[op.H] != nil && hidden[handles[op.H].file] {
+					mustFail[[3]int{pi, ti, oi}] = true
 				}
 				if op.Kind == "open" {
 					if len(ph.Tasks) > 1 || handles[op.H] != nil || op.File < 0 || op.File >= len(cs.Datas) {
@@ -228,6 +273,12 @@ func runC17(c *Ctx, body json.RawMessage) *Verdict {
 					used[op.H] = true
 				}
 			}
+		}
+	}
+	for f, h := range hidden {
+		if h {
+			_ = f
+			return Invalid("history ends with a hidden file")
 		}
 	}
 	v.NonTrivial = reopenAfterLastClose || concFirstUse
@@ -306,6 +357,14 @@ func runC17(c *Ctx, body json.RawMessage) *Verdict {
 								dbs[op.H].SetMaxIdleConns(op.N)
 							case "idletime":
 								dbs[op.H].SetConnMaxIdleTime(time.Duration(op.N) * time.Second)
+							case "hide":
+								if err := os.Rename(paths[op.File], paths[op.File]+".hidden"); err != nil {
+									o.o = &sqlOut{Err: "harness: " + err.Error()}
+								}
+							case "unhide":
+								if err := os.Rename(paths[op.File]+".hidden", paths[op.File]); err != nil {
+									o.o = &sqlOut{Err: "harness: " + err.Error()}
+								}
 							case "sleep":
 								// off the whole-second grid: database/sql's cleaner ticks at multiples of
 								// the idle time, and two fake timers expiring at the same instant wake in
@@ -352,8 +411,16 @@ func runC17(c *Ctx, body json.RawMessage) *Verdict {
 							bad = v.Violate("unexpected-error", "phase %d: %s of handle %d failed: %s", pi, op.Kind, op.H, o.o.Err)
 							return
 						}
+					case "hide", "unhide":
+						if o.o != nil && o.o.Err != "" {
+							bad = v.Harness("%s", o.o.Err)
+							return
+						}
 					case "query":
 						w := wantFor(refs[fileOf[op.H]], op.Q)
+						if mustFail[[3]int{pi, t, i}] {
+							w = &sqlWant{MustErr: true, Why: "the index file does not exist at this point"}
+						}
 						if sig, d := compareSQL(w, o.o); sig != "" {
 							bad = v.Violate(sig, "phase %d task %d: query %q on handle %d (file %d): %s", pi, t, string(op.Q.Text), op.H, fileOf[op.H], d)
 							return
@@ -372,6 +439,9 @@ func runC17(c *Ctx, body json.RawMessage) *Verdict {
 				}
 				if inUse {
 					continue
+				}
+				if _, err := os.Lstat(p); err != nil {
+					continue // moved away at the end of this phase
 				}
 				free, err := flockFree(p)
 				if err != nil {
